@@ -264,9 +264,108 @@ fn plan_for_range(p: &Plan, r: Option<(usize, usize)>) -> (Vec<CASReconstruction
     }
 }
 
+/// soft RLIMIT_FSIZE of this process (None = unlimited); returns the previous soft limit
+fn set_fsize_limit(l: Option<u64>) -> u64 {
+    unsafe {
+        let mut cur = libc::rlimit { rlim_cur: 0, rlim_max: 0 };
+        libc::getrlimit(libc::RLIMIT_FSIZE, &mut cur);
+        let old = cur.rlim_cur;
+        cur.rlim_cur = match l {
+            Some(v) => v.min(cur.rlim_max),
+            None => cur.rlim_max,
+        };
+        libc::setrlimit(libc::RLIMIT_FSIZE, &cur);
+        old
+    }
+}
+
+fn restore_fsize_limit(old: u64) {
+    unsafe {
+        let mut cur = libc::rlimit { rlim_cur: 0, rlim_max: 0 };
+        libc::getrlimit(libc::RLIMIT_FSIZE, &mut cur);
+        cur.rlim_cur = old;
+        libc::setrlimit(libc::RLIMIT_FSIZE, &cur);
+    }
+}
+
+/// One plan of more than 4 GiB (repeated whole-xorb terms of 16 MiB, disk cache on so that only the first term goes
+/// over the network), written to /dev/null: the reported length must be the plan's length (both writers).
+fn run_huge(args: &Args, rep: &mut Report, server: &Server, tp: &Arc<ThreadPool>) {
+    let mut rng = Rng::new(args.u64("seed", 1) ^ 0x4617);
+    let n_chunks = 128usize;
+    let mut data = Vec::new();
+    let mut cb = Vec::new();
+    let mut hl = Vec::new();
+    for _ in 0..n_chunks {
+        let c = rng.bytes(131072);
+        let h = compute_data_hash(&c);
+        data.extend_from_slice(&c);
+        cb.push((h, data.len() as u32));
+        hl.push((h, c.len()));
+    }
+    let hash = cas_node_hash(&hl);
+    let mut cur = Cursor::new(Vec::new());
+    let (cas, _) = CasObject::serialize(&mut cur, &hash, &data, &cb, Some(CompressionScheme::None)).expect("serialize");
+    let ser = cur.into_inner();
+    let mut blobs = HashMap::new();
+    blobs.insert("huge".to_string(), Arc::new(ser));
+    server.set_blobs(blobs);
+    server.set_delay(None);
+    let n_terms = 257 + rng.usize_below(8);
+    let terms: Vec<CASReconstructionTerm> = (0..n_terms)
+        .map(|_| CASReconstructionTerm { hash: hash.into(), unpacked_length: data.len() as u32, range: ChunkRange { start: 0, end: n_chunks as u32 } })
+        .collect();
+    let mut fetch: HashMap<HexMerkleHash, Vec<CASReconstructionFetchInfo>> = HashMap::new();
+    fetch.insert(
+        hash.into(),
+        vec![CASReconstructionFetchInfo {
+            range: ChunkRange { start: 0, end: n_chunks as u32 },
+            url: format!("http://127.0.0.1:{}/x/huge/blob", server.port),
+            url_range: HttpRange { start: 0, end: cas.info.chunk_boundary_offsets[n_chunks - 1] - 1 },
+        }],
+    );
+    let tmp = tempfile::tempdir().unwrap();
+    let cache_cfg = Some(CacheConfig { cache_directory: tmp.path().join("cache"), cache_size: 1 << 30 });
+    let client = Arc::new(RemoteClient::new(tp.clone(), "http://127.0.0.1:1", None, &None, &cache_cfg, tmp.path().join("shard-cache"), false));
+    let want = n_terms as u64 * data.len() as u64;
+    for writer in ["par", "seq"] {
+        let provider = OutputProvider::File(FileProvider::new(std::path::PathBuf::from("/dev/null")));
+        let fi = Arc::new(fetch.clone());
+        let c = client.clone();
+        let t2 = terms.clone();
+        let par = writer == "par";
+        let res = tp.external_run_async_task(async move {
+            if par {
+                c.reconstruct_file_to_writer_parallel(t2, fi, 0, None, &provider, None).await
+            } else {
+                c.reconstruct_file_to_writer(t2, fi, 0, None, &provider, None).await
+            }
+        });
+        let mut w = witness_base(args, "recon", 0);
+        w["mode"] = json!("plan larger than 4 GiB, output /dev/null");
+        w["terms"] = json!(n_terms);
+        w["writer"] = json!(writer);
+        match res {
+            Ok(Ok(n)) if n == want => rep.count(P, "plans_larger_than_4gib_length_correct", 1),
+            Ok(Ok(n)) => rep.violation(P, &format!("recon-length-report-{writer}-over-4gib"), &format!("{writer} writer reported {n} bytes for a plan of {want} bytes"), w),
+            Ok(Err(e)) => rep.violation(P, "recon-error-on-valid-plan", &format!("reconstruction of a valid plan (> 4 GiB) failed: {e}"), w),
+            Err(e) => rep.violation(P, "recon-panic", &format!("reconstruction task failed to join: {e}"), w),
+        }
+        rep.case(P, Some(format!("huge|{writer}")));
+    }
+}
+
 pub fn run(args: &Args, rep: &mut Report) {
     let server = Server::start();
     let tp = Arc::new(ThreadPool::new().expect("threadpool"));
+    // a write beyond RLIMIT_FSIZE must come back as an error (EFBIG), not kill the process
+    unsafe {
+        libc::signal(libc::SIGXFSZ, libc::SIG_IGN);
+    }
+    if args.has("huge-plan") {
+        run_huge(args, rep, &server, &tp);
+        return;
+    }
     for (k, mut rng) in case_iter(args, 0xC17, 40) {
         let nx = rng.urange(1, 6);
         let mut blobs = HashMap::new();
@@ -323,6 +422,7 @@ pub fn run(args: &Args, rep: &mut Report) {
             w
         };
         let mut ok_runs = 0u64;
+        #[allow(unused_assignments)]
         let mut failed = false;
         let mut warm_no_net = 0u64;
         let phases: &[&str] = if cache_mode == 0 { &["nocache"] } else { &["cold", "warm"] };
@@ -388,6 +488,47 @@ pub fn run(args: &Args, rep: &mut Report) {
                     }
                     let _ = std::fs::remove_file(&out);
                 }
+            }
+        }
+        // output file that cannot take all the bytes: with a file-size limit below the requested length the kernel cuts the
+        // write that crosses it short and fails the next one.  A reconstruction that returns Ok must have written
+        // everything, so under such a limit only an error is acceptable.  (cache off: the limit is process-wide)
+        if cache_mode == 0 && !failed && flen >= 64 && plan.terms.len() >= 2 {
+            let limit = rng.urange(1, flen - 1);
+            for writer in ["seq", "par"] {
+                let out = tmp.path().join(format!("out-limited-{writer}"));
+                let provider = OutputProvider::File(FileProvider::new(out.clone()));
+                let fi = Arc::new(plan.fetch.clone());
+                let c = client.clone();
+                let t2 = plan.terms.clone();
+                let par = writer == "par";
+                let old = set_fsize_limit(Some(limit as u64));
+                let res = tp.external_run_async_task(async move {
+                    if par {
+                        c.reconstruct_file_to_writer_parallel(t2, fi, 0, None, &provider, None).await
+                    } else {
+                        c.reconstruct_file_to_writer(t2, fi, 0, None, &provider, None).await
+                    }
+                });
+                restore_fsize_limit(old);
+                match res {
+                    Ok(Ok(nrep)) => {
+                        let got = std::fs::read(&out).map(|v| v.len()).unwrap_or(0);
+                        rep.violation(
+                            P,
+                            &format!("recon-ok-despite-short-write-{writer}"),
+                            &format!("{writer} writer: the output file could take only {limit} of {flen} bytes (file-size limit), yet the reconstruction returned Ok({nrep}); the file holds {got} bytes"),
+                            w("short write", &None, writer, "limited"),
+                        );
+                        failed = true;
+                    },
+                    Ok(Err(_)) => rep.count(P, "short_write_runs_rejected", 1),
+                    Err(e) => {
+                        rep.violation(P, "recon-panic", &format!("reconstruction task failed to join under a file-size limit: {e}"), w("panic", &None, writer, "limited"));
+                        failed = true;
+                    },
+                }
+                let _ = std::fs::remove_file(&out);
             }
         }
         rep.count(P, "reconstructions_compared", ok_runs);
